@@ -17,7 +17,8 @@ import (
 //
 // Transfers: T0 = (A, id 0x11, "f"), T1 = (A, id 0x22, `d\g`) — two ids of one agent
 // with different files; T2 = (B, id 0x11, "f") — the same id and name on a second
-// agent; T3 = (A, id 0x33, "f") — a third id of A sharing T0's name.  U = (A, id
+// agent; T3 = (A, id 0x33, "f\x00") — a third id of A sharing T0's name, spelled with a
+// NUL terminator (the BOF transport passes the name raw).  U = (A, id
 // 0x99) is never opened.
 // Operations: open(T), write(T), close(T) for every transfer, write(U), close(U).
 // The k-th write operation of transfer t carries the chunk "<t.k>", so arrival order
@@ -81,7 +82,7 @@ const nTransfers = 4
 
 func newHistRun(r *ev.Run, w *world, cfg histCfg) *histRun {
 	h := &histRun{r: r, w: w, cfg: cfg}
-	h.xfers = []xferDef{{0, 0x11, "f"}, {0, 0x22, `d\g`}, {1, 0x11, "f"}, {0, 0x33, "f"}, {0, 0x99, ""}}
+	h.xfers = []xferDef{{0, 0x11, "f"}, {0, 0x22, `d\g`}, {1, 0x11, "f"}, {0, 0x33, "f\x00"}, {0, 0x99, ""}}
 	u := len(h.xfers) - 1
 	for t := range h.xfers[:u] {
 		h.labels = append(h.labels, fmt.Sprintf("open(T%d)", t), fmt.Sprintf("write(T%d)", t), fmt.Sprintf("close(T%d)", t))
@@ -178,10 +179,11 @@ func (h *histRun) step(hist []int) explore.StepResult {
 		// Only the last step of a history is judged (its prefixes were judged when they
 		// were the frontier); earlier steps are replayed without listings, except an
 		// open whose file is not yet known.
-		key := w.names[x.ag] + "/" + x.name
+		// a NUL terminator is not part of a file name (T3 spells T0's name with one)
+		key := w.names[x.ag] + "/" + strings.TrimRight(x.name, "\x00")
 		conflict := false
 		for u, y := range h.xfers {
-			if u != t && y.ag == x.ag && y.name == x.name && m[u].open {
+			if u != t && y.ag == x.ag && strings.TrimRight(y.name, "\x00") == strings.TrimRight(x.name, "\x00") && m[u].open {
 				conflict = true
 			}
 		}
